@@ -245,6 +245,10 @@ var srvTemplates = []string{
 	"- c1;c2;s1.1;s2.2;sh;f2;f1;j;q1.3",
 	"2 c1;ch2;ra;c3;q3.4",
 	"- ch1;ra;q1.1;x",
+	"- sh;j",
+	"- sh;j;c1",
+	"- x;c1",
+	"- c1;d1;sh;j",
 }
 
 func init() {
@@ -253,7 +257,7 @@ func init() {
 		for i := 0; i < 32; i++ {
 			cfgs = append(cfgs, fmt.Sprintf("%05b", i))
 		}
-		if tier != "race" {
+		{
 			for i, c := range cfgs {
 				if i%nshards != shard {
 					continue
